@@ -33,7 +33,9 @@ func HarnessC12(op, once int) {
 	}) (hP2, error) {
 		return hP2{in.B.ID}, nil
 	})
-	defaults := []Arg{Named("dflt", hP0{y}), FuncName("shared-target")}
+	// the default option slice has spare capacity, as a slice built with append usually has
+	defaults := make([]Arg, 0, 8)
+	defaults = append(defaults, Named("dflt", hP0{y}), FuncName("shared-target"))
 	target, err3 := NewFunc(func(in struct {
 		Struct
 		A    hP1
@@ -48,7 +50,8 @@ func HarnessC12(op, once int) {
 	}
 	gen := func(v Value) (*Func, error) { return nil, nil }
 	filt := func(v Value) bool { return true }
-	opts := []Arg{Typed(hP0{x})}
+	opts := make([]Arg, 0, 16)
+	opts = append(opts, Typed(hP0{x}))
 	desc := "Typed "
 	// a symbolic selection of further option kinds, all shared
 	if vnBool("optNamed") {
